@@ -23,6 +23,43 @@ def is_self_value(v, op, argi=1):
     return r.kind == "arg" and r.base[1] == argi and not r.path
 
 
+def override_equals_default_quietly(f, m, b):
+    from ..kern.interp import Interp, Num, Undecided
+    from ..kern.expr import Expr
+    dflt = [p_ for p_, fi in f.fns.items() if fi.get("name") == m and not fi.get("impl_self") and p_.endswith("MomTropFloat::" + m)]
+    if len(dflt) != 1:
+        return False
+    try:
+        args = [Num(Expr.symbol("x%d" % i)) for i in range(b.arg_count)]
+        got = Interp(f).run_fn(b.path, list(args))
+        want = Interp(f).run_fn(dflt[0], list(args))
+        return isinstance(got, Num) and isinstance(want, Num) and got.expr == want.expr
+    except Exception:
+        return False
+
+
+def override_matches_default(ctx, f, trait, m, b):
+    """Evaluate the provided body and the f64 override on symbolic arguments (trait operators and f64's +,-,*,/ are the same single
+    rounded operations; any other std function is an atom named by its path) and require equal results."""
+    from ..kern.interp import Interp, Num, Undecided
+    from ..kern.expr import Expr
+    from .kernels import compare, guarded_clause
+    dflt = [p_ for p_, fi in f.fns.items() if fi.get("name") == m and not fi.get("impl_self") and p_.endswith("MomTropFloat::" + m)]
+
+    def body():
+        if len(dflt) != 1:
+            raise Undecided("provided body of MomTropFloat::%s not found (%d candidates)" % (m, len(dflt)))
+        n = b.arg_count
+        args = [Num(Expr.symbol("x%d" % i)) for i in range(n)]
+        got = Interp(f).run_fn(b.path, list(args))
+        want = Interp(f).run_fn(dflt[0], list(args))
+        if not (isinstance(got, Num) and isinstance(want, Num)):
+            raise Undecided("override / provided body of %s does not evaluate to a scalar" % m)
+        compare(ctx, "C20-a", "f64 override of the provided method %s equals the provided body" % m, got.expr, want.expr, b.path,
+                "f64-override:" + m, {}, ())
+    guarded_clause(ctx, "C20-a", b.path, "f64-override:" + m, body)
+
+
 def run(ctx):
     f = ctx.facts
     ctx.rule("C20-a", "impl MomTropFloat for f64: each of the trait's methods is the like-named std f64 function on *self "
@@ -32,6 +69,14 @@ def run(ctx):
         return ctx.lost("C20-a", "trait MomTropFloat")
     methods = [i["name"] for i in tr[0]["items"] if i["is_fn"]]
     seen = 0
+    vec_used = set()
+    for vb in f.mir.values():
+        if "vector::Vector" in ((f.fns.get(vb.path) or {}).get("impl_self") or ""):
+            for body in [vb] + list(f.closures_of(vb.path)):
+                for _bi, t in body.calls():
+                    c = t.get("callee") or {}
+                    if str(c.get("trait") or "").endswith("MomTropFloat"):
+                        vec_used.add(c.get("name"))
     for m in methods:
         key = "<f64 as float::MomTropFloat>::%s" % m
         cands = [b for b in f.mir.values() if (f.fns.get(b.path) or {}).get("impl_self") == "f64"
@@ -47,6 +92,17 @@ def run(ctx):
         b = cands[0]
         seen += 1
         ctx.fn(b.path)
+        if [i for i in tr[0]["items"] if i["name"] == m and i.get("has_default")]:
+            # the f64 impl OVERRIDES a provided method: generic callers are decided (C20-b, kernels) on the provided body, so for T = f64
+            # the override has to be the same sequence of correctly rounded operations — a fused or reassociated std shortcut is not.
+            # Equal to the provided body: accepted outright.  Not equal (or not decidable): a violation where a Vector primitive calls the
+            # method (a restating property filters by what its own code calls); elsewhere the like-named-std rule below applies.
+            if override_equals_default_quietly(f, m, b):
+                ctx.ob("C20-a", "f64 override of the provided method %s equals the provided body" % m, True, b.path, "f64-override:" + m)
+                continue
+            if m in vec_used or hasattr(ctx, "_keep"):
+                override_matches_default(ctx, f, tr[0], m, b)
+                continue
         v = Vals(b)
         ok, det = False, ""
         n_calls = len(list(b.calls()))
